@@ -67,7 +67,7 @@ func Loop(r lineReader, p Parser, vm *vm.Type, doOut bool) {
 
 	for {
 		line, err := r.read()
-		if err != nil { // io.EOF
+		if err != nil && line == "" { // io.EOF
 			break
 		}
 
@@ -79,6 +79,10 @@ func Loop(r lineReader, p Parser, vm *vm.Type, doOut bool) {
 			processInput(input, p, vm, doOut)
 			sep = ""
 			input = ""
+		}
+
+		if err != nil { // last line of a file without a line break
+			break
 		}
 	}
 }
